@@ -185,7 +185,7 @@ class ShardCtx:
                 "labels": sorted(labels),
                 "size": size,
                 "shard": self.shard,
-                "kwargs": jsonable(self.kwargs),
+                "kwargs": jsonable({k: v for k, v in self.kwargs.items() if k != "prepared"}),
             }
 
     def result(self):
@@ -271,8 +271,16 @@ def drive(ctx, strategy, body, max_examples, *, shrink=None, rounds=3, name="cas
         wrapped = hypothesis.seed(derive_seed(ctx.seed, name))(wrapped)
         try:
             wrapped()
-        except AssertionError as exc:
+        except BaseException as exc:  # noqa: BLE001
             bucket = getattr(exc, "bucket", None)
+            flaky = type(exc).__name__ in ("Flaky", "FlakyFailure", "FlakyReplay")
+            if flaky and "last" in state:
+                # the same input failed once and passed once (e.g. a thread interleaving):
+                # the observed failure is still a counter-example
+                bucket = state["last"][1]["bucket"]
+                ctx.count(flaky_failures=1)
+            if not isinstance(exc, (AssertionError,)) and not flaky:
+                raise
             if bucket is None or "last" not in state:
                 raise HarnessError(f"unexpected assertion in harness: {exc!r}") from exc
             spec, problem, labels = state["last"]
@@ -470,8 +478,20 @@ def main(argv=None):
             print(f"HARNESS-ERROR property={prop} oracle self-test failed", file=sys.stderr)
             return 2
 
+    # ---- optional preparation in the parent (e.g. fresh-interpreter reference results) ------------
+    prepared = None
+    if hasattr(mod, "prepare"):
+        try:
+            prepared = mod.prepare(tier, seed)
+        except Exception:
+            traceback.print_exc()
+            print(f"HARNESS-ERROR property={prop} preparation failed", file=sys.stderr)
+            return 2
+
     # ---- run shards -----------------------------------------------------------------------------
     shard_list = mod.shards(tier, seed)
+    if prepared is not None:
+        shard_list = [(n, f, dict(k, prepared=prepared)) for (n, f, k) in shard_list]
     if args.only:
         shard_list = [s for s in shard_list if re.search(args.only, s[0])]
     results = []
